@@ -94,7 +94,12 @@ LayoutTexts == { S("1"), S("-1.5e+5"), S("2#101#"), S("'a b'"), S("\"it's\""), S
 Vlayout == { x \in SimpleFor : x.toks[1].t \in LayoutTexts } \cup { WithU(One, M), WithU(One, CHOOSE u \in UnitSp : u.t = S("< m >")) }
            \cup { c \in { Coll0("seq"), Coll2("seq", One, Two), Coll2("set", Wa, Qs), Coll2("seq", WithU(One, M), Two),
                            Coll2("seq", Coll2("seq", One, Two), Coll1("seq", Two)) } : Dialect \in c.ds }
-Vuse == IF Profile = "layout" THEN Vlayout ELSE Vfull
+R15 == V1(S("1.50"), N("real", S("1.50"), <<>>), All, TRUE)
+Rexp == V1(S("-1.5e+5"), N("real", S("-1.5e+5"), <<>>), All, TRUE)
+Vhooks == Reals \cup { One, Wa, WithU(R15, M), WithU(One, M), Coll2("seq", R15, One), Coll2("seq", WithU(R15, M), Rexp),
+                       Coll2("seq", Coll2("seq", R15, One), Coll1("seq", Rexp)), Coll2("set", R15, Wa) }
+          \cup (IF Dialect \in OdlFam THEN {} ELSE { Coll2("set", One, Coll1("set", R15)), WithU(Coll2("seq", R15, Two), M), WithU(Wa, M) })
+Vuse == IF Profile = "layout" THEN Vlayout ELSE IF Profile = "hooks" THEN Vhooks ELSE Vfull
 NamesFull == { S("B2"), S("a_b"), S("ns:k"), S("^P"), S("x-y"), S("a.b"), S("9a") }
 GroupKw == { S("GROUP"), S("Group"), S("group") } \cup (IF Dialect = "ISIS" THEN {} ELSE { S("BEGIN_GROUP"), S("Begin_Group") })
 ObjectKw == { S("OBJECT"), S("object") } \cup (IF Dialect = "ISIS" THEN {} ELSE { S("BEGIN_OBJECT") })
@@ -186,5 +191,30 @@ Tree == N("PVLModule", <<>>, stk[1].items)
 (* reader = writer on the model, for every layout *)
 RefReadsGenerated == phase = "laid" =>
     LET o == Load(Dialect, Text) IN o.verdict = "accept" /\ o.tree = Tree /\ o.errs = <<>>
-EmitCase == (Emit /\ phase = "laid") => PrintT(ToJson([text |-> Text, tree |-> Tree, lay |-> lay, ntok |-> Len(toks)]))
+(* ---- C18: what the tree becomes when the caller substitutes classes ---- *)
+Hooks == { [id |-> "decimal",  real |-> "decimal",  qty |-> "qty",        mod |-> "PVLModule", grp |-> "PVLGroup", obj |-> "PVLObject"],
+           [id |-> "recording", real |-> "RecStr",  qty |-> "qty:RecQty", mod |-> "MyModule",  grp |-> "MyGroup",  obj |-> "MyObject"],
+           [id |-> "fraction", real |-> "fraction", qty |-> "qty:RecQty", mod |-> "PVLModule", grp |-> "PVLGroup", obj |-> "PVLObject"] }
+RECURSIVE Retag(_, _)
+Retag(n, h) ==
+   LET kids == [i \in 1..Len(n.xs) |-> Retag(n.xs[i], h)] IN
+   CASE n.t = "real"      -> N(h.real, n.s, kids)      \* the written text, unaltered, goes to the real-number class
+     [] n.t = "qty"       -> N(h.qty, n.s, kids)
+     [] n.t = "PVLModule" -> N(h.mod, n.s, kids)
+     [] n.t = "PVLGroup"  -> N(h.grp, n.s, kids)
+     [] n.t = "PVLObject" -> N(h.obj, n.s, kids)
+     [] OTHER             -> N(n.t, n.s, kids)         \* integers stay integers, nothing else changes
+RECURSIVE HasTag(_, _)
+HasTag(n, tags) == n.t \in tags \/ \E i \in 1..Len(n.xs) : HasTag(n.xs[i], tags)
+(* substituting changes only the listed tags: mapping them back gives the original tree *)
+Back(h) == [id |-> "back", real |-> "real", qty |-> "qty", mod |-> "PVLModule", grp |-> "PVLGroup", obj |-> "PVLObject"]
+RECURSIVE Untag(_, _)
+Untag(n, h) ==
+   LET kids == [i \in 1..Len(n.xs) |-> Untag(n.xs[i], h)] IN
+   N(CASE n.t = h.real -> "real" [] n.t = h.qty -> "qty" [] n.t = h.mod -> "PVLModule" [] n.t = h.grp -> "PVLGroup"
+       [] n.t = h.obj -> "PVLObject" [] OTHER -> n.t, n.s, kids)
+RetagChangesNothingElse == phase = "laid" => \A h \in Hooks : Untag(Retag(Tree, h), h) = Tree
+EmitCase == (Emit /\ phase = "laid") =>
+   PrintT(ToJson([text |-> Text, tree |-> Tree, lay |-> lay, ntok |-> Len(toks),
+                  rt |-> IF Profile = "hooks" THEN [h \in {x.id : x \in Hooks} |-> Retag(Tree, CHOOSE x \in Hooks : x.id = h)] ELSE <<>>]))
 =============================================================================
